@@ -35,17 +35,18 @@ def classPrefix (cfg : Config) (s : State) : String :=
   else if (get_active_validator_indices s GENESIS_EPOCH).isEmpty then "noactive:"
   else ""
 
-def render (cfg : Config) (s : State) : String :=
-  "ok " ++ classPrefix cfg s ++ printStateAbbrev s ++ " valid=" ++ boolStr (is_valid_genesis_state cfg s) ++ " ctx=same"
+/-- `valid`: the model column uses the code-shaped `Impl.isValidGenesisState`, the spec column `is_valid_genesis_state` -/
+def render (cfg : Config) (s : State) (valid : Bool) : String :=
+  "ok " ++ classPrefix cfg s ++ printStateAbbrev s ++ " valid=" ++ boolStr valid ++ " ctx=same"
 
 def renderModel (cfg : Config) : Option State → String
   | none => "err"
-  | some s => render cfg s
+  | some s => render cfg s (Impl.isValidGenesisState cfg s)
 
 def renderSpec (cfg : Config) : SM State → String
   | .error (.overflow _) => "any"
   | .error _ => "err"
-  | .ok s => render cfg s
+  | .ok s => render cfg s (is_valid_genesis_state cfg s)
 
 def c13Line (line : String) : String :=
   let toks := tokens line
